@@ -12,7 +12,7 @@ from ..worldprop import base_outcome, completion, REAL_VS_STUB  # noqa
 
 np = sut.np
 ID = "C06"
-RUNS = {"quick": 5000, "thorough": 150000}
+RUNS = {"quick": 12500, "thorough": 150000}
 BUDGET = {"quick": 45, "thorough": 780}
 RULE = ("worlds with three-phase mixed-sign constraint matrices (1-6 constraints, limits 1-500 A, both tolerances varied) or "
         "no constraints at all, under every party; at up to 4 calls per run the party probes all three checkers with random "
